@@ -573,10 +573,20 @@ inline MatL gen_spd(int n, Rng& r, int lgc)
 
 // start vectors: kind "def" (library default, caller uses init()), "rnd", "e1" (first unit vector),
 // "blk" (supported on the first blk coordinates), "eig" (an exact eigenvector if known), "ones"
-inline VecL gen_start(const std::string& kind, int n, uint64_t seed, int blk, const MatL* Q)
+// "neareig" / "nearblk" / "neare1": a vector of an exactly invariant subspace (an eigenvector, the leading block coordinates, e1) plus
+// 10^dlt times a random vector: a NEAR breakdown, whose residual (about 10^dlt) is far above rounding level and must be kept
+inline VecL gen_start(const std::string& kind, int n, uint64_t seed, int blk, const MatL* Q, int dlt = -9)
 {
     Rng r(seed * 104729ULL + 7ULL);
     VecL v = VecL::Zero(n);
+    if (kind == "neareig" || kind == "nearblk" || kind == "neare1")
+    {
+        VecL base = gen_start(kind == "neareig" ? "eig" : (kind == "nearblk" ? "blk" : "e1"), n, seed, blk, Q);
+        const LD delta = std::pow(10.0L, (LD) dlt);
+        for (int i = 0; i < n; i++)
+            v[i] = base[i] + delta * r.sym();
+        return v;
+    }
     if (kind == "rnd")
     {
         for (int i = 0; i < n; i++)
